@@ -345,6 +345,12 @@ def eval_shape(s, env):
     return pow(a, b)
 
 
+def _fmt(v) -> str:
+    if v[0] == "v" and isinstance(v[1], int) and abs(v[1]) > 10**30:
+        return f"('v', <{v[1].bit_length()}-bit integer>)"
+    return str(v)
+
+
 _CALC = None
 
 
@@ -413,7 +419,7 @@ def calc_check(text):
                     b = ("e", type(e).__name__)
                 if a != b:
                     differs = True
-                    fails.append((f"{name}:wrong-value", f"{name}: shape {r[1]} evaluates to {a} but the precedence table gives {want} = {b} (env {env})"))
+                    fails.append((f"{name}:wrong-value", f"{name}: shape {r[1]} evaluates to {_fmt(a)} but the precedence table gives {want} = {_fmt(b)} (env {env})"))
                     break
             if not differs:
                 pass
